@@ -851,7 +851,7 @@ PROFILE = {
     "C09": {"ascollide": 0.08, "multias": 0.5, "oddkinds": 0.06, "strmix": 0.3, "oddstr": 0.12, "named": 0.5, "as_": 0.4, "group": 0.4}, "C10": {"nilmembers": 0.08, "multias": 0.6, "as_": 0.3, "oddkinds": 0.04, "strmix": 0.2, "selfcycle": 0.05, "deeptree": 0.5, "max_scopes": 7, "group": 0.6, "scope": 0.15, "export": 0.25, "web": 0.12},
     "C11": {"softpair": 0.08, "strmix": 0.3, "deeptree": 0.5, "max_scopes": 7, "scope": 0.15, "group": 0.65, "malformed": 0.03, "web": 0.12}, "C12": {"strmix": 0.2, "shadow": 0.08, "deeptree": 0.4, "max_scopes": 7, "decorate": 0.35, "scope": 0.15, "group": 0.4, "malformed": 0.03, "web": 0.2, "export": 0.3, "retry": 0.08},
     "C13": {"longchain": 0.06, "fault": 0.4, "malformed": 0.25, "backedge": 0.25, "retry": 0.08, "late": 0.05}, "C14": {"oddstr": 0.08, "longchain": 0.04, "oddkinds": 0.1, "selfcycle": 0.04, "malformed": 0.55, "visualize": 0.08, "vizgroup": 0.06},
-    "C15": {"oddkinds": 0.1, "oddstr": 0.1, "shadow": 0.12, "obj_param": 0.6, "obj_result": 0.5, "malformed": 0.2, "embed": 0.3}, "C16": {"scope": 0.18, "backedge": 0.25, "group": 0.45, "fault": 0.0, "defer": 0.5, "malformed": 0.03, "deepcycle": 0.08},
+    "C15": {"oddkinds": 0.1, "oddstr": 0.1, "shadow": 0.12, "obj_param": 0.6, "obj_result": 0.5, "malformed": 0.2, "embed": 0.3, "nest": 0.3, "backedge": 0.35}, "C16": {"scope": 0.18, "backedge": 0.25, "group": 0.45, "fault": 0.0, "defer": 0.5, "malformed": 0.03, "deepcycle": 0.08},
     "C17": {"dry": 0.5, "malformed": 0.2, "backedge": 0.25}, "C18": {"oddkinds": 0.08, "oddstr": 0.25, "strmix": 0.15, "malformed": 0.25, "as_": 0.35, "obj_param": 0.6, "obj_result": 0.5, "loc": 0.3, "embed": 0.1},
     "C19": {"dupdep": 0.08, "oddstr": 0.15, "oddkinds": 0.06, "vizgroup": 0.12, "loc": 0.15, "visualize": 0.22, "group": 0.55, "fault": 0.3, "malformed": 0.05, "decorate": 0.06, "scope": 0.06, "obj_result": 0.4, "recover": 0.8}, "C20": {"longchain": 0.03, "cb": 0.7, "fault": 0.35, "dry": 0.05, "retry": 0.08, "loc": 0.2},
 }
@@ -863,7 +863,7 @@ PROFILE = {
 _KEEP_OWN = ("dry", "fault", "recover", "defer", "malformed", "visualize", "max_ops", "invoke")
 _CAP = {"malformed": 0.15, "visualize": 0.06, "oddstr": 0.1, "cb": 0.5, "obj_param": 0.55, "obj_result": 0.45, "embed": 0.15,
         "backedge": 0.3, "group": 0.5, "decorate": 0.25, "scope": 0.15, "named": 0.4, "optional": 0.35, "reinvoke": 0.5,
-        "reprovide": 0.3, "loc": 0.1}
+        "reprovide": 0.3, "loc": 0.1, "nest": 0.12}
 
 
 def mixed_profile(pid):
